@@ -19,6 +19,7 @@ package templater
 // cached variable map, never into the cache itself: later expansions must not see them.
 //@ ghost var nTrav int scratch
 //@ ghost var nParse int scratch
+//@ ghost var rendered string scratch
 //@ func ReplaceWithExtra
 //@   modifies heap
 //@   preserves $RUNDATA
@@ -38,6 +39,10 @@ package templater
 //@   site (*Template).Parse#0 requires arg1 == v                                                                [C19]
 //@   site (*Template).Parse#0 ghost nParse := nParse + 1
 //@   ensures nParse <= 1                                                                                        [C19]
+// what the engine rendered is handed on byte for byte (a value that was substituted - an argument after --, a
+// shell-quoted value - is not edited afterwards)
+//@   site (*Buffer).String#1 ghost rendered := result
+//@   ensures result.1 == nil ==> result.0 == rendered                                                           [C19]
 //@ func ReplaceVar
 //@   trusted
 //@   modifies github.com/go-task/task/v3/internal/templater.*
